@@ -10,6 +10,7 @@ def jobs(tier):
     ms = 3000 if t else 240
     strata = [dict(name="v3000/S-shape", ns=[1, 2, 3] + ([4] if t else []), pin={3: 3, 4: 6}, params=dict(K_m=1, K_r=1)),
               dict(name="v3000/S-elem4", ns=[2] + ([3] if t else []), pin={3: 3}, params=dict(K_m=1, K_r=0, alphabet=SIGMA_T4))]
+    strata.append(dict(name="v3000-trailing-blanks/S-shape", ns=[2], pin={}, params=dict(K_m=1, K_r=0, trailing_blanks=True)))
     js = []
     for j in shape_strata(M, "c06", tier, quick=strata, thorough=strata, max_seconds=ms):
         js += split(j, "variant", 7) if j["params"]["n"] >= 2 else [j]
